@@ -290,7 +290,7 @@ func RegisteredTypes() []gopacket.LayerType {
 	var out []gopacket.LayerType
 	for i := 0; i < 4000; i++ {
 		lt := gopacket.LayerType(i)
-		if lt.String() != strconv.Itoa(i) {
+		if n := lt.String(); n != strconv.Itoa(i) && !strings.HasPrefix(n, "Script") { // Script*: the harness's own scripted layers
 			out = append(out, lt)
 		}
 	}
